@@ -8,9 +8,11 @@ import (
 	"github.com/zclconf/go-cty/cty"
 	"github.com/zclconf/go-cty/cty/ctystrings"
 	"github.com/zclconf/go-cty/cty/msgpack"
+	"golang.org/x/text/unicode/norm"
 	"verifharness/internal/cq"
 	"verifharness/internal/gt"
 	"verifharness/internal/gv"
+	"verifharness/internal/jv"
 	"verifharness/internal/mp"
 	"verifharness/internal/rng"
 )
@@ -127,7 +129,7 @@ func genC16(c *Ctx, r *rng.R, i int) {
 	p, pmsg = recovered(func() { back, err = msgpack.Unmarshal(buf, conTy) })
 	if modelled {
 		s, _ := tree.Coq()
-		c.Add("unmarshal/roundtrip", fmt.Sprintf("K16_unmarshal %s %s %s %s", normTableMP(tree), s, cq.Ty(conTy), resValE(back, err, p)), desc, true)
+		c.Add("unmarshal/roundtrip", fmt.Sprintf("K16_unmarshal %s %s %s %s %s", normTableMP(tree), tree.JTable(), s, cq.Ty(conTy), resValE(back, err, p)), desc, true)
 	}
 	if p || err != nil {
 		sig := "C16/roundtrip"
@@ -304,4 +306,28 @@ func nestedUnknownUnderDyn(v cty.Value, t cty.Type) bool {
 	return false
 }
 
-func normTableMP(t *mp.V) string { return "[]" }
+// normalisation table (NFC) for every string in the item tree, including those inside embedded type descriptions
+func normTableMP(t *mp.V) string {
+	var items []string
+	seen := map[string]bool{}
+	add := func(x string) {
+		if n := norm.NFC.String(x); n != x && !seen[x] {
+			seen[x] = true
+			items = append(items, cq.Pair(cq.Str(x), cq.Str(n)))
+		}
+	}
+	t.Strings(func(x string) {
+		add(x)
+		if j, err := jv.Parse([]byte(x)); err == nil {
+			for _, n := range j.Nodes() {
+				for _, k := range n.Keys {
+					add(k)
+				}
+				if n.K == jv.Str {
+					add(n.S)
+				}
+			}
+		}
+	})
+	return cq.List(items)
+}
